@@ -220,8 +220,13 @@ package kcp
 // INV-S: send side. Queued segments own a 1500-byte pool buffer holding at most mss bytes;
 // an acknowledged segment has given its buffer back. snd_buf holds the consecutive sequence
 // numbers snd_una .. snd_nxt-1, never more than the send window.
+// (C18) a segment that has never been transmitted carries no retransmission timer: the timer is
+// armed by the transmission itself, never before.
+//@ pred unarmed(s segment) = s.xmit == 0 && s.rto == 0 && s.resendts == 0
 //@ pred segq(s segment, mss int) = cap(s.data) == 1500 && len(s.data) <= mss
 //@ pred segb(s segment, mss int) = (s.acked == 1 && s.data == nil) || (cap(s.data) == 1500 && len(s.data) <= mss)
+//@ pred (kcp *KCP) wfU() = (forall i int :: 0 <= i && i < kcp.snd_queue.rlen() ==> unarmed(kcp.snd_queue.at(i)))
+//@      && (forall i int :: 0 <= i && i < kcp.snd_buf.rlen() ==> (kcp.snd_buf.at(i).xmit == 0 ==> unarmed(kcp.snd_buf.at(i))))
 //@ pred (kcp *KCP) wfSq() = forall i int :: 0 <= i && i < kcp.snd_queue.rlen() ==> segq(kcp.snd_queue.at(i), kcp.mss)
 //@ pred (kcp *KCP) wfSb() = forall i int :: 0 <= i && i < kcp.snd_buf.rlen() ==> segb(kcp.snd_buf.at(i), kcp.mss)
 //@ pred (kcp *KCP) wfSn() = (forall i int :: 0 <= i && i < kcp.snd_buf.rlen() ==> kcp.snd_buf.at(i).sn == addu32(kcp.snd_una, i))
@@ -287,6 +292,7 @@ package kcp
 //@ pred segButXmit(a segment, b segment) = segKeepId(a, b) && a.acked == b.acked && a.data == b.data
 //
 //@ func KCP.parse_una
+//@   ensures @C18 [unsent-segments-carry-no-timer] old(kcp.wfU()) ==> kcp.wfU()
 //@   requires kcp.wfR() && kcp.wfSb()
 //@   modifies all(kcp.snd_buf), kcp.snd_buf.elements[..]
 //@   ensures kcp.wfR() && kcp.wfSb()
@@ -300,6 +306,7 @@ package kcp
 //@   loop 1 invariant forall j int :: _i <= j && j < _n ==> kcp.snd_buf.at(j) == old(kcp.snd_buf.at(j))
 //
 //@ func KCP.parse_ack
+//@   ensures @C18 [unsent-segments-carry-no-timer] old(kcp.wfU()) ==> kcp.wfU()
 //@   requires kcp.wfR() && kcp.wfSb()
 //@   modifies kcp.snd_buf.elements[..]
 //@   ensures kcp.wfR() && kcp.wfSb() && kcp.snd_buf.rlen() == old(kcp.snd_buf.rlen())
@@ -310,6 +317,7 @@ package kcp
 //@   loop 1 invariant forall j int :: 0 <= j && j < _n ==> kcp.snd_buf.at(j) == old(kcp.snd_buf.at(j))
 //
 //@ func KCP.parse_fastack
+//@   ensures @C18 [unsent-segments-carry-no-timer] old(kcp.wfU()) ==> kcp.wfU()
 //@   requires kcp.wfR() && kcp.wfSb()
 //@   modifies kcp.snd_buf.elements[..]
 //@   ensures kcp.wfR() && kcp.wfSb() && kcp.snd_buf.rlen() == old(kcp.snd_buf.rlen())
@@ -369,6 +377,8 @@ package kcp
 //@   loop 1 invariant (old(kcp.rcvQ()) ==> kcp.rcvQ()) && itimediff(kcp.rcv_nxt, old(kcp.rcv_nxt)) >= 0 && kcp.rcv_queue.rlen() - old(kcp.rcv_queue.rlen()) == itimediff(kcp.rcv_nxt, old(kcp.rcv_nxt))
 //
 //@ func KCP.Send
+//@   ensures @C18 [unsent-segments-carry-no-timer] old(kcp.wfU()) ==> kcp.wfU()
+//@   loop 2 invariant @C18 old(kcp.wfU()) ==> kcp.wfU()
 //@   requires kcp.wfR() && kcp.wfM() && kcp.wfSq()
 //@   modifies all(kcp.snd_queue), kcp.snd_queue.elements[..], kcp.snd_queue.at(kcp.snd_queue.rlen() - 1).data[..]
 //@   ensures kcp.wfR() && kcp.wfSq()
@@ -383,7 +393,14 @@ package kcp
 //
 //@ pred suffixOf(p []byte, b []byte) = ref(p) == ref(b) && off(b) <= off(p) && off(p) + len(p) == off(b) + len(b)
 //
+// (C18) Phase 4 moves segments into snd_buf without arming their timer; the lemma is proved for
+// the queue side, phase 4 and the acknowledgement-only flush. Phase 5 arms and transmits in the
+// same iteration: its own discipline is not under contract (a global invariant through that loop
+// does not discharge within the time limit, and xmit is a uint32 that wraps after 2^32-1
+// transmissions).
 //@ func KCP.flush
+//@   ensures @C18 [unsent-segments-carry-no-timer] flushType != 2 && old(kcp.wfU()) ==> kcp.wfU()
+//@   loop 2 invariant @C18 old(kcp.wfU()) ==> kcp.wfU()
 //@   requires kcp.wf()
 //@   modifies all(kcp), all(kcp.snd_queue), kcp.snd_queue.elements[..], all(kcp.snd_buf), kcp.snd_buf.elements[..], kcp.buffer[..], all(DefaultSnmp)
 //@   ensures kcp.wf()
@@ -858,9 +875,9 @@ package kcp
 // The dispatchers and the blockCrypt wrapper (symbolic length: cfbenc/cfbdec are carried as an
 // uninterpreted relation from the callee's postcondition to the wrapper's). bcinv is the object
 // invariant of blockCrypt: its fields are written by newBlockCrypt only (checked: immutable).
-//@ immutable blockCrypt.encbuf blockCrypt.decbuf blockCrypt.block blockCrypt.blockSize
-//@ constructor newBlockCrypt
-//@ pred bcinv(c *blockCrypt) = c.block != nil && (blocksize(c.block) == 8 || blocksize(c.block) == 16) && len(c.encbuf) >= blocksize(c.block) && len(c.decbuf) >= 2 * blocksize(c.block)
+//@ immutable blockCrypt.encbuf blockCrypt.decbuf blockCrypt.block blockCrypt.decBlock blockCrypt.blockSize
+//@ constructor newBlockCrypt NewSM4BlockCrypt
+//@ pred bcinv(c *blockCrypt) = c.block != nil && c.decBlock != nil && blocksize(c.decBlock) == blocksize(c.block) && (blocksize(c.block) == 8 || blocksize(c.block) == 16) && len(c.encbuf) >= blocksize(c.block) && len(c.decbuf) >= 2 * blocksize(c.block)
 //@ func encrypt
 //@   requires len(dst) >= len(src) && block != nil && (blocksize(block) == 8 || blocksize(block) == 16) && len(buf) >= blocksize(block)
 //@   modifies dst[..], buf[..]
@@ -879,8 +896,8 @@ package kcp
 //@ func blockCrypt.Decrypt
 //@   requires bcinv(c) && len(dst) >= len(src)
 //@   modifies dst[..], c.decbuf[..], c.decMu
-//@   ensures @C08 [wrapper-8] blocksize(c.block) == 8 ==> cfbdec(c.block, dst, src, 8)
-//@   ensures @C08 [wrapper-16] blocksize(c.block) == 16 ==> cfbdec(c.block, dst, src, 16)
+//@   ensures @C08 [wrapper-8] blocksize(c.decBlock) == 8 ==> cfbdec(c.decBlock, dst, src, 8)
+//@   ensures @C08 [wrapper-16] blocksize(c.decBlock) == 16 ==> cfbdec(c.decBlock, dst, src, 16)
 //@ func newBlockCrypt
 //@   requires block != nil && (blocksize(block) == 8 || blocksize(block) == 16)
 //@   ensures @C08 [establishes-bcinv] typeis(result, ptr_blockCrypt) && bcinv(unboxptr(result, blockCrypt))
@@ -900,8 +917,10 @@ package kcp
 //@ immutable UDPSession.dup UDPSession.platform UDPSession.ownConn
 //@ constructor UDPSession.SetDUP UDPSession.initPlatform
 //@ guard Listener.sessionLock: sessions[]
-//@ guard blockCrypt.encMu: encbuf[]
-//@ guard blockCrypt.decMu: decbuf[]
+// the cipher object of each direction is only used under that direction's mutex (a cipher.Block
+// implementation may keep scratch state: tjfoc/gmsm's SM4 does)
+//@ guard blockCrypt.encMu: encbuf[] *block
+//@ guard blockCrypt.decMu: decbuf[] *decBlock
 //@ guard rngAES.mutex: block seed count
 //@ guard rngChacha8.mutex: rand count *rand
 //@ guard TimedSched.prependLock: prependTasks prependTasks[]
